@@ -9,14 +9,119 @@ specifiers); ALL lists of <= n specifiers are tried.  Oracle: differential -
 loadConfigFile(S, T, overrides=L) vs loadConfigFile(S, edit(T, L)) where edit()
 is computed on the event tree by the rule in the statement - cross-checked with
 the reference conformance model on the edited text.
+
+Wave 5 adds the axis HOW A CONTAINER IS FINISHED: every schema of the family is explored in several
+variants (VARIANTS below) that differ in what happens when a container - the <schema> element, every
+section type - has collected its values: its datatype (none / a distinguishable wrapper / an identity-
+returning datatype that refuses a marked value) and the handlers registered for the schema and for every
+item.  The observed outcome of a load is the PAIR loadConfigFile returns: the value tree and what the
+handler object delivers (its length, the sequence of names, each delivered value).
 """
 import itertools
+from dataclasses import replace
 
 from vz import core
 from vz.gen import corpus as C
 from vz.gen import schema as M
+from vz.harness import c14dt
 from vz.harness import load as H
 from vz.ref import match as R
+
+# ---------------------------------------------------------------------------
+# axis "how a container is finished" (wave 5)
+
+DT_SCHEMA, DT_SECTIONS = "datatype-on-schema", "datatype-on-every-sectiontype"
+H_SCHEMA, H_ITEMS = "handler-on-schema", "handler-on-every-item"
+RF_SCHEMA, RF_SECTIONS = "refusing-datatype-on-schema", "refusing-datatype-on-every-sectiontype"
+REFUSING = frozenset((RF_SCHEMA, RF_SECTIONS))
+REFUSE_DT = "vz.harness.c14dt.refuse_marked"
+WRAPS = (M.SECT_DT_WRAP, M.SECT_DT_WRAP2)
+
+# (name, flags, program): "full" = every seed, singles + loader re-use + pairs + same-target groups (thorough:
+# triples, quadruples); "reduced" = every STRIDE-th seed, singles + loader re-use + same-target groups
+# (thorough: + pairs)
+_V = lambda name, prog, *flags: (name, frozenset(flags), prog)
+VARIANTS_QUICK = (
+    _V("converted+handled-everywhere", "full", DT_SCHEMA, DT_SECTIONS, H_SCHEMA, H_ITEMS),
+    _V("plain", "reduced"),
+    _V("datatypes", "reduced", DT_SCHEMA, DT_SECTIONS),
+    _V("handlers", "reduced", H_SCHEMA, H_ITEMS),
+    _V("refusing-datatypes", "reduced", RF_SCHEMA, RF_SECTIONS),
+)
+VARIANTS_THOROUGH = VARIANTS_QUICK + (
+    _V("datatype-on-schema-only", "reduced", DT_SCHEMA),
+    _V("datatype-on-sectiontypes-only", "reduced", DT_SECTIONS),
+    _V("handler-on-schema-only", "reduced", H_SCHEMA),
+    _V("handlers-on-items-only", "reduced", H_ITEMS),
+    _V("refusing-datatype-on-schema-only", "reduced", RF_SCHEMA),
+    _V("refusing-datatype-on-sectiontypes-only", "reduced", RF_SECTIONS),
+    _V("refusing-datatypes+handlers", "reduced", RF_SCHEMA, RF_SECTIONS, H_SCHEMA, H_ITEMS),
+    _V("schema-converted+handled,sections-plain", "reduced", DT_SCHEMA, H_SCHEMA),
+)
+STRIDE = {"quick": 4, "thorough": 2}
+
+
+def variants(tier):
+    return VARIANTS_QUICK if tier == "quick" else VARIANTS_THOROUGH
+
+
+def decorate(S, flags, refuse_dt=REFUSE_DT):
+    """The schema S with the finishing steps of `flags` added wherever S itself says nothing: two
+    distinguishable wrapping datatypes alternate over the section types (which type's datatype was applied
+    is visible), every item of every container gets a handler name of its own (mixed case)."""
+    types, n = [], 0
+    for t in S.types:
+        if isinstance(t, M.SType):
+            items = t.items
+            if H_ITEMS in flags:
+                items = tuple(replace(it, handler=it.handler or "H_%s_%d" % (t.name, i)) for i, it in enumerate(items))
+            dt = t.datatype
+            if dt is None and DT_SECTIONS in flags:
+                dt = WRAPS[n % 2]
+            if dt is None and RF_SECTIONS in flags:
+                dt = refuse_dt
+            n += 1
+            t = replace(t, items=items, datatype=dt)
+        types.append(t)
+    items = S.items
+    if H_ITEMS in flags:
+        items = tuple(replace(it, handler=it.handler or "H_top_%d" % i) for i, it in enumerate(items))
+    dt, h = S.datatype, S.handler
+    if dt is None and DT_SCHEMA in flags:
+        dt = M.SECT_DT_WRAP
+    if dt is None and RF_SCHEMA in flags:
+        dt = refuse_dt
+    if h is None and H_SCHEMA in flags:
+        h = "H_Schema"
+    return replace(S, types=tuple(types), items=items, datatype=dt, handler=h)
+
+
+def handler_names(S):
+    out = set()
+    for cont in (S,) + tuple(t for t in S.types if isinstance(t, M.SType)):
+        for it in cont.items:
+            if it.handler:
+                out.add(R.kt_basic_key(it.handler))
+    if S.handler:
+        out.add(R.kt_basic_key(S.handler))
+    return sorted(out)
+
+
+class Ctx:
+    """One (schema, variant) under exploration."""
+
+    def __init__(self, name, S0, vname, flags, program):
+        self.variant, self.flags, self.full = vname, flags, program == "full"
+        self.S = decorate(S0, flags)
+        # the reference model knows the wrapping datatypes and the handlers; for the refusing datatype it is
+        # asked about the same schema with 'null' in its place (a refusal only turns acceptance into rejection)
+        self.Sref = decorate(S0, flags, refuse_dt="null")
+        self.ref_partial = bool(flags & REFUSING)
+        self.xml = M.render(self.S)
+        self.sch = H.load_schema(self.xml)
+        self.names = handler_names(self.S)
+        self.mid = {"name": name, "variant": vname, "schema": self.xml, "handlers": self.names}
+        self.prev_text = None
 
 
 class Node:
@@ -150,7 +255,12 @@ def spec_alphabet(S, events):
                 vals.append(bad[0])
             if dt == "string":
                 # every metacharacter of the specifier syntax inside the VALUE ("verbatim"): '$', '=', '/'
+                # ('p=q' is also the value the refusing container datatype of the wave-5 variants looks for)
                 vals += ["a$b", "p=q", "$$x", "p/q", "/r/s", "u/v=w"]
+            if nm == "lk" and "x" not in vals:
+                # the extra token the corpus vocabulary has for 'lk': what the family's own refusing section
+                # datatype (vz.harness.dt.reject_lk_x, schema rich2) looks for
+                vals.append("x")
             for v in vals:
                 keys.append((nm, v))
             keys.append((nm.upper(), toks[0]))
@@ -216,17 +326,56 @@ def same_target_groups(S, events, specs):
     return out[:6]
 
 
-def outcome(obs):
+def delivered(cfg, cfg_tree, handler, names):
+    """What the handler object returned with a configuration delivers when every handler name of the schema is
+    mapped to a recorder: (len(handler), ((name, value tree), ...)) in calling order."""
+    calls = []
+
+    def rec(nm):
+        def cb(value):
+            calls.append((nm, cfg_tree if value is cfg else H.tree(value)))
+        return cb
+    try:
+        n = len(handler)
+        handler({nm: rec(nm) for nm in names})
+    except Exception as e:
+        return ("handler-object-raises", type(e).__name__, str(e)[:160])
+    return (n, tuple(calls))
+
+
+def outcome(obs, names=()):
+    """-> ('tree', (value tree, delivered handler entries)) | ('rejected', error class) |
+    ('refused', message): the refusing datatype of the <schema> element raised (ZConfig lets the ValueError of
+    a schema-level datatype through as it is; sections' are reported as DataConversionError -> 'rejected') |
+    ('internal', description)"""
     if obs[0] == "ok":
-        return ("tree", H.tree(obs[1]))
+        t = H.tree(obs[1])
+        return ("tree", (t, delivered(obs[1], t, obs[2], names)))
     if obs[0] == "rejected":
         return ("rejected", type(obs[1]).__name__)
+    if isinstance(obs[1], c14dt.Refused):
+        return ("refused", str(obs[1]))
     return ("internal", core.exc_desc(obs[1]))
+
+
+def show(o):
+    if o[0] == "tree":
+        return [o[0], repr(o[1][0])[:300], "handler entries: " + repr(o[1][1])[:400]]
+    return [o[0], repr(o[1])[:300]]
+
+
+def what_differs(a, b):
+    if a[0] != b[0]:
+        return "verdict"
+    if a[0] != "tree":
+        return "none"
+    t, h = a[1][0] != b[1][0], a[1][1] != b[1][1]
+    return "value-tree+handler-entries" if t and h else "value-tree" if t else "handler-entries" if h else "none"
 
 
 def load_twice_on_one_loader(sch, text, specs, text2):
     """One ExtendedConfigLoader object carrying the overrides serves two loads (text, then text2).
-    -> (outcome of load 1, outcome of load 2), or ('add-refused', exc) when a specifier is refused."""
+    -> [result of load 1, result of load 2], or None when a specifier is refused."""
     import io
     import ZConfig
     import ZConfig.cmdline
@@ -250,31 +399,34 @@ def load_twice_on_one_loader(sch, text, specs, text2):
     return out
 
 
-def check_reload(sch, text, specs, text2, acc, mid):
-    """The same override list must act on EVERY load made through the loader that carries it."""
+def check_reload(cx, text, specs, text2, acc, want2):
+    """The same override list must act on EVERY load made through the loader that carries it.
+    want2 = outcome of loadConfigFile(text2, overrides=specs), i.e. of a fresh loader (computed by check_list)."""
+    sch = cx.sch
     r = load_twice_on_one_loader(sch, text, specs, text2)
     if r is None:
         return
     acc.ev()
     acc.transitions += 1
     acc.nt()
-    first, second = outcome(r[0]), outcome(r[1])
+    first, second = outcome(r[0], cx.names), outcome(r[1], cx.names)
     # (the first load on a new loader is what loadConfigFile(..., overrides=) does: compared by check_list)
-    want2 = outcome(H.load(sch, text2, overrides=list(specs)))
     acc.cls("reload:%s/%s" % (second[0], want2[0]))
-    case = {"member": mid, "text": text, "overrides": list(specs), "second_text": text2}
+    case = {"member": cx.mid, "text": text, "overrides": list(specs), "second_text": text2}
     if second != want2:
-        acc.violation("second-load-on-same-loader-differs", case, [second[0], repr(second[1])[:300]],
-                      [want2[0], repr(want2[1])[:300]], tags={"kind": "loader-reuse", "step": 2,
-                                                               "first": first[0], "second": second[0]})
+        acc.violation("second-load-on-same-loader-differs", case, show(second), show(want2),
+                      tags={"kind": "loader-reuse", "step": 2, "first": first[0], "second": second[0],
+                            "differs": what_differs(second, want2)})
 
 
-def check_list(S, sch, events, text, specs, acc, mid, resolved_any):
+def check_list(cx, events, text, specs, acc, resolved_any):
     import ZConfig
+    S, sch, names = cx.S, cx.sch, cx.names
     acc.ev()
-    acc.current = (text, specs)
-    case = {"member": mid, "text": text, "overrides": list(specs)}
-    obs = outcome(H.load(sch, text, overrides=list(specs)))
+    acc.current = (cx.variant, text, specs)
+    acc.extra["override-lists/variant:" + cx.variant] += 1
+    case = {"member": cx.mid, "text": text, "overrides": list(specs)}
+    obs = outcome(H.load(sch, text, overrides=list(specs)), names)
     try:
         edited = edit(S, events, specs)
         exp_reject = None
@@ -288,21 +440,26 @@ def check_list(S, sch, events, text, specs, acc, mid, resolved_any):
         acc.cls("internal")
         acc.violation("internal-error", case, obs[1], "tree or configuration error",
                       tags={"kind": "internal-error", "exc": obs[1]["class"], "where": obs[1]["where"]})
-        return
+        return obs
+    _judge(cx, events, specs, acc, case, obs, edited, exp_reject)
+    return obs
+
+
+def _judge(cx, events, specs, acc, case, obs, edited, exp_reject):
     if exp_reject is not None:
         acc.cls("must-reject:" + exp_reject)
         if obs[0] != "rejected":
-            acc.violation("override-accepted-but-must-be-rejected", case, "accepted", exp_reject,
+            acc.violation("override-accepted-but-must-be-rejected", case, obs[0], exp_reject,
                           tags={"kind": "must-reject", "why": exp_reject})
         elif exp_reject in ("no-equals", "empty-component") and obs[1] != "ConfigurationSyntaxError":
             acc.violation("malformed-specifier-wrong-error", case, obs[1], "ConfigurationSyntaxError",
                           tags={"kind": "malformed-specifier-error-class"})
         return
     etext = H.render_events(edited)
-    exp = outcome(H.load(sch, etext))
-    ref = R.decide(S, edited)
+    exp = outcome(H.load(cx.sch, etext), cx.names)
+    ref = R.decide(cx.Sref, edited)
     acc.cls("edit:%s override:%s" % (exp[0], obs[0]))
-    if ref.verdict != "U":
+    if ref.verdict != "U" and not (cx.ref_partial and ref.verdict == "A"):
         want = "tree" if ref.verdict == "A" else "rejected"
         if exp[0] != want:
             acc.extra["edited_text_disagrees_with_reference(C01's)"] += 1
@@ -310,83 +467,135 @@ def check_list(S, sch, events, text, specs, acc, mid, resolved_any):
     if exp[0] == "internal":
         return
     if obs[0] != exp[0] or (obs[0] == "tree" and obs[1] != exp[1]):
-        acc.violation("override-differs-from-edited-text", dict(case, edited=etext),
-                      [obs[0], repr(obs[1])[:300]], [exp[0], repr(exp[1])[:300]],
-                      tags={"kind": "differs", "override": obs[0], "edited": exp[0]})
+        acc.violation("override-differs-from-edited-text", dict(case, edited=etext), show(obs), show(exp),
+                      tags={"kind": "differs", "override": obs[0], "edited": exp[0],
+                            "differs": what_differs(obs, exp)})
         return
+    # what the wave-5 axis contributed to this (agreeing) case
+    if obs[0] == "tree":
+        n = obs[1][1][0]
+        if n >= 2:
+            acc.extra["accepted-override-loads-delivering->=2-handler-entries"] += 1
+        if cx.S.handler:
+            acc.extra["accepted-override-loads-delivering-the-schema-handler"] += 1
+        if obs[1][0][0] in ("W", "W2"):
+            acc.extra["accepted-override-loads-whose-top-level-is-converted-by-the-schema-datatype"] += 1
+        if cx.ref_partial:
+            acc.extra["accepted-override-loads-passing-a-refusing-datatype"] += 1
+    elif obs[0] == "refused":
+        acc.extra["override-loads-refused-by-the-schema-datatype(as the edited text)"] += 1
+    elif cx.ref_partial and ref.verdict == "A":
+        acc.extra["override-loads-refused-by-a-section-datatype(as the edited text)"] += 1
     if len(specs) == 1 and exp[0] == "rejected" and exp[1] == "DataConversionError" and ref.clause == "value-unconvertible":
         if obs[1] != "DataConversionError":
             acc.violation("unconvertible-override-not-a-conversion-error", case, obs[1], "DataConversionError",
                           tags={"kind": "conversion-error-class"})
 
 
-def shard(member, acc):
-    name, S, root, depth, lean, tier = member
-    xml = M.render(S)
-    sch = H.load_schema(xml)
-    mid = {"name": name, "schema": xml}
-    nseeds = 0
-    prev_text = None
-    maxseeds = 40 if tier == "quick" else 100
+def explore_seed(cx, S1, events, text, specs, resolves, tier, nseeds, acc):
+    """The override lists tried on one (schema variant, seed)."""
+    acc.states += 1
+    acc.extra["seeds/variant:" + cx.variant] += 1
     pair_alpha = 8 if tier == "quick" else 12
-    for events, d in C.nodes(S, root, depth, lean):
+    fresh = {}
+    for s in specs:
+        fresh[s] = check_list(cx, events, text, (s,), acc, resolves[s])
+        acc.transitions += 1
+    # sub-alphabet chosen to interact: specifiers that resolve to a section, specifiers that do not, and one
+    # acceptable override of the top-level key every schema holds
+    top = [s for s in specs if is_top_key_spec(s)]
+    sub = [s for s in specs if resolves[s]][:pair_alpha // 2] + \
+          [s for s in specs if not resolves[s] and s not in top][:pair_alpha // 2] + top[:1]
+    # one loader object, two loads: the same text again, and (full program; thorough: all) the previous seed of
+    # this schema variant, then this one; the second load is compared with a fresh loader's (= the single-
+    # specifier load above).  Full program: every specifier that resolves to a section or addresses a key of the
+    # schema itself (the added top-level key: its first and its marked value); reduced program: the sub-alphabet
+    # and the marked value of the top-level key
+    marked = [s for s in top if s.split("=", 1)[1] == c14dt.MARK]
+    if cx.full:
+        again = [s for s in specs if (resolves[s] or "/" not in s.split("=", 1)[0]) and
+                 (s not in top or s in top[:1] or s in marked)]
+    else:
+        again = [s for s in sub + marked if resolves[s] or "/" not in s.split("=", 1)[0]]
+    for s in again:
+        check_reload(cx, text, (s,), text, acc, fresh[s])
+        if cx.prev_text is not None and (cx.full or tier != "quick"):
+            check_reload(cx, cx.prev_text, (s,), text, acc, fresh[s])
+    cx.prev_text = text
+    if cx.full or tier != "quick":
+        # pairs (and triples in the thorough tier)
+        for a, b in itertools.product(sub, repeat=2):
+            check_list(cx, events, text, (a, b), acc, resolves[a] or resolves[b])
+            acc.transitions += 1
+    # every pair / triple of specifiers that reach the SAME key of the SAME section through different
+    # spellings of the path (by name, by type, upper case), with distinct values: order, dropping and
+    # consumption interact exactly there
+    for group in same_target_groups(S1, events, specs):
+        for a, b in itertools.permutations(group, 2):
+            check_list(cx, events, text, (a, b), acc, True)
+            acc.transitions += 1
+        if len(group) >= 3:
+            for tr in itertools.permutations(group[:4], 3):
+                check_list(cx, events, text, tr, acc, True)
+                acc.transitions += 1
+    if tier != "quick" and cx.full:
+        sub3 = list(dict.fromkeys(sub[:4] + sub[-1:]))
+        for tr in itertools.product(sub3, repeat=3):
+            check_list(cx, events, text, tr, acc, any(resolves[x] for x in tr))
+            acc.transitions += 1
+        if nseeds <= 12:
+            for q in itertools.product(sub3, repeat=4):
+                check_list(cx, events, text, q, acc, any(resolves[x] for x in q))
+                acc.transitions += 1
+
+
+TOP_KEY = M.Key("tk", default="td")
+
+
+def with_top_key(S0):
+    """Every schema also holds a plain top-level key (with a default, so every corpus text stays acceptable):
+    each seed then offers overrides of a top-level key - absent from the text - next to those of its sections."""
+    return replace(S0, items=tuple(S0.items) + (TOP_KEY,))
+
+
+def is_top_key_spec(spec):
+    return spec.split("=", 1)[0].lower() == TOP_KEY.name
+
+
+def shard(member, acc):
+    name, S0, root, depth, lean, tier = member
+    S1 = with_top_key(S0)
+    ctxs = [Ctx(name, S1, vn, fl, pr) for vn, fl, pr in variants(tier)]
+    nseeds = 0
+    maxseeds = 40 if tier == "quick" else 100
+    stride = STRIDE[tier]
+    for events, d in C.nodes(S0, root, depth, lean):
         if d.verdict != "A" or not any(e[0] in ("o", "e") for e in events):
             continue
         if len(events) < 2:
             continue
+        if nseeds >= maxseeds:
+            acc.extra["seeds_beyond_bound_not_used"] += 1
+            continue
         text = H.render_events(events)
-        if H.load(sch, text)[0] != "ok":
+        # a seed is a text every variant of the schema accepts (no corpus text holds the marker of the
+        # refusing datatype; the other variants do not change what is accepted)
+        if any(H.load(cx.sch, text)[0] != "ok" for cx in ctxs):
             acc.extra["seed_disagreements"] += 1
             continue
         nseeds += 1
-        if nseeds > maxseeds:
-            acc.extra["seeds_beyond_bound_not_used"] += 1
-            continue
-        acc.states += 1
-        specs = spec_alphabet(S, events)
+        specs = spec_alphabet(S1, events)
         resolves = {}
         for s in specs:
             try:
                 comps, _ = parse_spec(s)
-                edit(S, events, [s])
+                edit(S1, events, [s])
                 resolves[s] = len(comps) > 1
             except MustReject:
                 resolves[s] = False
-        for s in specs:
-            check_list(S, sch, events, text, (s,), acc, mid, resolves[s])
-            acc.transitions += 1
-        # one loader object, two loads: the same text again, and the previous seed of this schema
-        for s in specs:
-            if resolves[s] or "/" not in s.split("=", 1)[0]:
-                check_reload(sch, text, (s,), text, acc, mid)
-                if prev_text is not None:
-                    check_reload(sch, prev_text, (s,), text, acc, mid)
-        prev_text = text
-        # pairs (and triples in the thorough tier) over a sub-alphabet chosen to interact
-        sub = [s for s in specs if resolves[s]][:pair_alpha // 2] + [s for s in specs if not resolves[s]][:pair_alpha // 2]
-        for a, b in itertools.product(sub, repeat=2):
-            check_list(S, sch, events, text, (a, b), acc, mid, resolves[a] or resolves[b])
-            acc.transitions += 1
-        # every pair / triple of specifiers that reach the SAME key of the SAME section through different
-        # spellings of the path (by name, by type, upper case), with distinct values: order, dropping and
-        # consumption interact exactly there
-        for group in same_target_groups(S, events, specs):
-            for a, b in itertools.permutations(group, 2):
-                check_list(S, sch, events, text, (a, b), acc, mid, True)
-                acc.transitions += 1
-            if len(group) >= 3:
-                for tr in itertools.permutations(group[:4], 3):
-                    check_list(S, sch, events, text, tr, acc, mid, True)
-                    acc.transitions += 1
-        if tier != "quick":
-            sub3 = sub[:5]
-            for tr in itertools.product(sub3, repeat=3):
-                check_list(S, sch, events, text, tr, acc, mid, any(resolves[x] for x in tr))
-                acc.transitions += 1
-            if nseeds <= 12:
-                for q in itertools.product(sub3[:5], repeat=4):
-                    check_list(S, sch, events, text, q, acc, mid, any(resolves[x] for x in q))
-                    acc.transitions += 1
+        for cx in ctxs:
+            if cx.full or (nseeds - 1) % stride == 0:
+                explore_seed(cx, S1, events, text, specs, resolves, tier, nseeds, acc)
     acc.traces = acc.transitions
     return acc
 
@@ -408,56 +617,103 @@ def mixed_keytype_members(tier):
 
 def run(tier):
     # both tiers use the quick schema family (the full two-item family x 150 seeds x triples is > 5 CPU-hours);
-    # the thorough tier goes deeper per schema: more seeds, triples, quadruples
+    # the thorough tier goes deeper per schema: more seeds, triples, quadruples, more finishing variants
     base = C.members("quick")
     mem = [m + (tier,) for m in base] + [m + (tier,) for m in mixed_keytype_members(tier)]
+    vs = variants(tier)
     run = core.Run(
         "C14", tier, "model_checking",
         rule="seeds = accepted texts of corpus T (reference BFS over the schema family, two rich schemas, and every key-like "
              "item one / two levels down under a key type that differs from the schema's: basic-key vs identifier vs a "
              "custom lower-casing key type) with "
-             ">= 1 section, at most %s per schema; per seed a specifier alphabet derived from its section tree "
+             ">= 1 section, at most %s per schema; every schema additionally holds a plain top-level key 'tk' with a default "
+             "(no text mentions it: 'a top-level key absent from T can be supplied the same way' on every seed); "
+             "per seed a specifier alphabet derived from its section tree "
              "(every section by name / type / upper case to depth 3 x declared, absent, unknown, wildcard and "
-             "key-type-refused keys x convertible / empty / unconvertible / '$' / '=' values, absent sections, "
+             "key-type-refused keys x convertible / empty / unconvertible / '$' / '=' values and the value a refusing "
+             "container datatype looks for, absent sections, "
              "malformed specifiers); all single specifiers, all ordered pairs over an interacting sub-alphabet "
-             "(thorough: triples, quadruples on the first seeds); every resolving single specifier also on ONE loader object "
-             "serving two loads (the same text again; the previous seed of the schema, then this one), each "
-             "load compared with a fresh loader's.  states = seeds, transitions = override lists "
+             "(4 that resolve to a section, 4 that do not, 1 acceptable override of the top-level key; "
+             "thorough: triples, quadruples on the first seeds); every single specifier that resolves to a section or "
+             "addresses a key of the schema itself (of 'tk': the first and the marked value) also on ONE loader object "
+             "serving two loads (the same text again; the previous seed of the schema, then this one), the second "
+             "load compared with a fresh loader's.  "
+             "Axis HOW A CONTAINER IS FINISHED (wave 5): every schema is explored in the variants listed in "
+             "bounds.finishing_variants - what is done when a container has collected its values: the <schema> element / "
+             "every section type carrying no datatype, a wrapping datatype (two distinguishable ones alternate over the "
+             "section types), or an identity-returning datatype that refuses a container holding the marked value 'p=q' "
+             "(which only overrides supply); the <schema> element / every item of every container carrying a handler or "
+             "not.  The OUTCOME compared between the override load and the load of the edited text (and between the two "
+             "loads of one loader) is the pair loadConfigFile returns: the value tree AND what the handler object delivers "
+             "when every handler name is mapped to a recorder (its len, the sequence of names, each value's tree); a "
+             "refusal by the schema-level datatype (ZConfig lets its ValueError through) must occur on both sides.  "
+             "The variant with datatypes and handlers everywhere runs the full program on every seed; the other variants "
+             "run all single specifiers, the same-target groups%s and the loader re-use (same text again%s) over the "
+             "pair sub-alphabet and the marked top-level value, on every %s seed "
+             "(seed numbers 1, 1+k, 1+2k, ... in BFS order).  "
+             "states = (schema variant, seed) pairs, transitions = override lists "
              "loaded.  Non-trivial = list with >= 1 specifier that resolves to an existing section."
-             % ("40" if tier == "quick" else "100"),
+             % ("40" if tier == "quick" else "100", "" if tier == "quick" else ", the pairs",
+                "" if tier == "quick" else "; previous seed, then this one", "4th" if tier == "quick" else "2nd"),
         bounds={"members": len(mem), "max_list": 2 if tier == "quick" else 4,
+                "finishing_variants": {vn: {"adds": sorted(fl), "program": pr} for vn, fl, pr in vs},
+                "reduced_program_seed_stride": STRIDE[tier],
                 "thorough_family": "the quick schema family; 100 seeds per schema, triples over 5 specifiers, "
-                                   "quadruples on the first 12 seeds of each schema"},
+                                   "quadruples on the first 12 seeds of each schema (full-program variant); 13 finishing "
+                                   "variants (each level alone, refusing + handlers), reduced program with pairs on every "
+                                   "2nd seed"},
         assumptions=["edit() in vz/props/c14.py implements the statement's rule on the event tree",
-                     "override values restricted to strings the text syntax can express"])
+                     "override values restricted to strings the text syntax can express",
+                     "'the same outcome' covers both members of the pair loadConfigFile returns (configuration, handler)",
+                     "the reference model (cross-check only) is asked about the schema with 'null' in place of the refusing datatype"])
     core.pmap(shard, mem, run.acc, shard_budget=3000.0)
     a = run.acc
     run.require(a.classes.get("edit:tree override:tree", 0) > 200, "few accepted override loads")
     run.require(a.classes.get("edit:rejected override:rejected", 0) > 100, "few rejected override loads")
     run.require(a.classes.get("reload:tree/tree", 0) > 1000 and a.classes.get("reload:rejected/rejected", 0) > 100,
                 "loader re-use hardly exercised")
+    # wave 5: the finishing axis was really exercised
+    for vn, fl, pr in vs:
+        run.require(a.extra.get("override-lists/variant:" + vn, 0) > 20000,
+                    "finishing variant %s: too few override lists" % vn)
+    x = a.extra.get
+    run.require(x("accepted-override-loads-delivering->=2-handler-entries", 0) > 50000,
+                "too few accepted override loads whose handler object delivers >= 2 entries")
+    run.require(x("accepted-override-loads-delivering-the-schema-handler", 0) > 50000,
+                "too few accepted override loads under a schema-level handler")
+    run.require(x("accepted-override-loads-whose-top-level-is-converted-by-the-schema-datatype", 0) > 50000,
+                "too few accepted override loads whose top level is converted by the schema datatype")
+    run.require(x("accepted-override-loads-passing-a-refusing-datatype", 0) > 5000,
+                "too few accepted override loads under a refusing datatype")
+    run.require(x("override-loads-refused-by-the-schema-datatype(as the edited text)", 0) > 1000 and
+                a.classes.get("reload:refused/refused", 0) > 1000,
+                "the schema-level datatype hardly ever refused an override load")
+    run.require(x("override-loads-refused-by-a-section-datatype(as the edited text)", 0) > 500,
+                "the section datatypes hardly ever refused an override load")
     return run
 
 
 def replay(body):
     case = body["case"]
+    names = case["member"].get("handlers", ())
     rc = 0
     for _ in range(2):
         sch = H.load_schema(case["member"]["schema"])
-        obs = outcome(H.load(sch, case["text"], overrides=case["overrides"]))
+        obs = outcome(H.load(sch, case["text"], overrides=case["overrides"]), names)
+        print("schema (variant %s):\n%s" % (case["member"].get("variant"), case["member"]["schema"]))
         print("text:\n" + case["text"] + "overrides:", case["overrides"])
-        print("observed with overrides:", obs[0], repr(obs[1])[:300])
+        print("observed with overrides:", show(obs))
         if "second_text" in case:
             r = load_twice_on_one_loader(sch, case["text"], case["overrides"], case["second_text"])
-            second = outcome(r[1])
-            want2 = outcome(H.load(sch, case["second_text"], overrides=case["overrides"]))
-            print("second load on the same loader:", second[0], repr(second[1])[:300])
-            print("same load on a fresh loader:   ", want2[0], repr(want2[1])[:300])
+            second = outcome(r[1], names)
+            want2 = outcome(H.load(sch, case["second_text"], overrides=case["overrides"]), names)
+            print("second load on the same loader:", show(second))
+            print("same load on a fresh loader:   ", show(want2))
             rc = 1 if second != want2 else rc
         elif "edited" in case:
-            exp = outcome(H.load(sch, case["edited"]))
-            print("edited text:\n" + case["edited"] + "observed on edited text:", exp[0], repr(exp[1])[:300])
-            if obs != exp:
+            exp = outcome(H.load(sch, case["edited"]), names)
+            print("edited text:\n" + case["edited"] + "observed on edited text:", show(exp))
+            if obs[0] != exp[0] or (obs[0] == "tree" and obs != exp):
                 rc = 1
         else:
             print("expected:", body["expected"])
